@@ -3,5 +3,5 @@ CONSTANTS
   MBs <- GMBs
   Mode = "conc"
 VIEW EdgeView
-INVARIANT EmitConc
+ACTION_CONSTRAINT EmitConcEdge
 CHECK_DEADLOCK FALSE
